@@ -10,10 +10,16 @@ import (
 
 var blockSizes = []int{64, 200, 400, 1000, 4000}
 
-// GenScript generates a fault-free workload: nW writes/deletes of keys 0..7 with values that
+// GenScript generates a fault-free workload: nW write calls (single writes/deletes of keys
+// 0..7, ~30% multi-treasure batches) with values that
 // are unique within the script, 1-4 Syncs, with probability closePct a Close in the middle (the next
 // write reopens the file), a final Close.
 func GenScript(rng *common.Rng, idx int, minW, maxW int, closePct int) Script {
+	return GenScriptB(rng, idx, minW, maxW, closePct, 12, 5)
+}
+
+// GenScriptB: batchPct percent of the write calls are batches of 2..maxBatch treasures.
+func GenScriptB(rng *common.Rng, idx int, minW, maxW int, closePct, batchPct, maxBatch int) Script {
 	s := Script{MBS: blockSizes[rng.Intn(len(blockSizes))]}
 	if rng.Intn(3) != 0 {
 		s.Name = fmt.Sprintf("verif/c02/s%d", idx)
@@ -28,6 +34,19 @@ func GenScript(rng *common.Rng, idx int, minW, maxW int, closePct int) Script {
 	val := int64(0)
 	for i := 0; i < nW; i++ {
 		val++
+		if rng.Chance(batchPct) {
+			// one chronicler.Write call with 2..maxBatch treasures (what the swamp's writer tick hands
+			// over): duplicate keys and deletes of keys written in the same batch included; with
+			// the small block sizes the batch spans several block boundaries
+			n := 2 + rng.Intn(maxBatch-1)
+			st := Step{K: KBatch, FaultJ: -1}
+			for m := 0; m < n; m++ {
+				st.Items = append(st.Items, Item{Key: rng.Intn(8), Val: val, Del: rng.Chance(20)})
+				val++
+			}
+			s.Steps = append(s.Steps, st)
+			continue
+		}
 		k := KWrite
 		if rng.Chance(20) {
 			k = KDelete
@@ -142,6 +161,19 @@ func (s *Script) Compact() string {
 			fmt.Fprintf(&sb, "W%d=%d", st.Key, st.Val)
 		case KDelete:
 			fmt.Fprintf(&sb, "D%d", st.Key)
+		case KBatch:
+			sb.WriteString("B[")
+			for n, it := range st.Items {
+				if n > 0 {
+					sb.WriteByte(',')
+				}
+				if it.Del {
+					fmt.Fprintf(&sb, "D%d", it.Key)
+				} else {
+					fmt.Fprintf(&sb, "W%d=%d", it.Key, it.Val)
+				}
+			}
+			sb.WriteByte(']')
 		default:
 			sb.WriteString(st.K)
 		}
